@@ -18,7 +18,7 @@
 (*              k = 3: mfpts(T, lagtime=ln/ld) all pairs  -> mall, and          *)
 (*                     cols[s] = mfpts(T, sinks=[s], lagtime=ln/ld)             *)
 (* States are 1-based.  Verdict: one line per trace,                            *)
-(*   <<"ACCEPT", tid>>   or   <<"REJECT", tid, {<<event, "Clause">>, ...}>>.    *)
+(*   <<"ACCEPT", tid>>   or   <<"REJECT", json of [tid, bad = {<<event, "Clause">>}]>>. *)
 EXTENDS Integers, Sequences, FiniteSets, TLC, Json, IOUtils, Rational
 
 Traces == JsonDeserialize(IOEnv.TRACE_FILE)
@@ -113,5 +113,6 @@ Next == Consume
 Spec == Init /\ [][Next]_vars
 
 Verdict == l = Len(Tr.events) =>
-             IF bad = {} THEN PrintT(<<"ACCEPT", tid>>) ELSE PrintT(<<"REJECT", tid, bad>>)
+             IF bad = {} THEN PrintT(<<"ACCEPT", tid>>)
+             ELSE PrintT(<<"REJECT", ToJson([tid |-> tid, bad |-> bad])>>)     \* one line
 =============================================================================
